@@ -31,7 +31,7 @@ func newExec(p *Program, fc *FuncContract) *Exec {
 	x := &Exec{prog: p, b: b, so: NewSorts(b, fp), fp: fp, safety: fc.Safety, rootC: fc,
 		initHeaps: map[string]*smt.Term{}, heapSorts: map[string]string{}, strLits: map[string]*smt.Term{},
 		Assumed: map[string]bool{}, oblNames: map[string]int{}, ufDecl: map[string]bool{}, maxInline: 8, defUnroll: 4,
-		rangeOf: map[*ssa.Range]types.Type{}, exprTypes: map[Expr]types.Type{}}
+		rangeOf: map[*ssa.Range]types.Type{}, exprTypes: map[Expr]types.Type{}, divAlias: map[int]*smt.Term{}, divRest: map[[2]int]*smt.Term{}}
 	x.deadline = time.Now().Add(90 * time.Second)
 	if v, ok := fc.Opts["unroll"]; ok {
 		fmt.Sscanf(v, "%d", &x.defUnroll)
